@@ -387,6 +387,52 @@ def es_perturb(ctx):
            why='perturb_pva modifies its input')
 
 
+def jac_shape(ctx):
+    """The measurement Jacobians of the error model have the documented shape on every path:
+    rows = 3 (2 for position and NED velocity without altitude), columns = number of states -
+    with and without a lever arm (a measurement class may slice again, a user's subclass of
+    Measurement sizes its residual from the documented shape)."""
+    ctx.rule('JAC-SHAPE', 'position / NED-velocity / body-velocity error Jacobians return '
+             '(3 or 2) x n_states for both altitude modes, with and without a lever arm')
+    repo = ctx.repo
+    n = 0
+    for wa in (True, False):
+        for name, rows2 in (('position_error_jacobian', True),
+                            ('ned_velocity_error_jacobian', True),
+                            ('body_velocity_error_jacobian', False)):
+            for lever in (False, True):
+                ev = SymEval(repo, Alg(), hooks=_H())
+                A = ev.A
+                emc, em = _em(ctx, ev, wa)
+                m = emc.methods.get(name)
+                ctx.need(m is not None, 'InsErrorModel.%s missing' % name)
+                ctx.touch(m)
+                if lever and len(m.params) < 3:
+                    continue
+                pva = _pva(ctx, A, extra=repo.const('util.RATE_COLS'))
+                args = [pva]
+                if len(m.params) >= 3:
+                    args.append(SArray((3,), {(i,): A.sym('l%d' % i) for i in range(3)})
+                                if lever else None)
+                try:
+                    r = ev.call_function(m, args, {}, em)
+                except Unsupported as e:
+                    raise AnalysisError('%s not analysable (with_altitude=%s, lever=%s): %s'
+                                        % (name, wa, lever, e))
+                ctx.need(isinstance(r, SArray) and len(r.shape) == 2,
+                         '%s: result is not a matrix' % name)
+                want = (2 if (rows2 and not wa) else 3, 9 if wa else 7)
+                n += 1
+                ctx.ob('JAC-SHAPE', tuple(r.shape) == want, None,
+                       '%s(with_altitude=%s, lever arm=%s) is %s x %s' % ((name, wa, lever) + want),
+                       f=m, key='%s-%s-%s' % (name, wa, lever),
+                       why='%s returns a %s x %s matrix for with_altitude=%s %s a lever arm; '
+                           'documented %s x %s (a path that skips the row / column reduction)'
+                           % (name, r.shape[0], r.shape[1], wa, 'with' if lever else 'without',
+                              want[0], want[1]))
+    ctx.floor('JAC-SHAPE', n, 8, 'Jacobian evaluations')
+
+
 # ----------------------------------------------------------------------- EM-2D
 def _sysmat(ctx, wa, hooks=None, alg=None):
     repo = ctx.repo
